@@ -8,7 +8,8 @@ The sync manager keeps one table of "seen" block identifiers (`blkCache`, an LRU
 (`block.GetHash()` / `data.BlockHash`). The value is a placeholder (put by a NewBlockNotice) or a
 digest of the whole content of the block a BlockProducedNotice carried (`blockContentDigest`,
 repair 27f3484f): a BlockProducedNotice is a duplicate only of a placeholder or of the very same
-content. `Get`/`Add` move the entry to the front, `ContainsOrAdd` does not refresh a hit.
+content; a NewBlockNotice is dropped only on a placeholder (repair 3a7d8024). `Get`/`Add` move the
+entry to the front, `Peek` does not.
 
 The header digest is never recomputed, so an arrival is described by the announced identifier, a
 token for its content (equal tokens = equal content; the harness computes it) and the outcome of the
@@ -42,12 +43,6 @@ def Seen.get (s : Seen) (id : Bytes) : Option Val × Seen :=
   | none => (none, s)
   | some v => (some v, { s with ents := (id, v) :: s.ents.filter (·.1 != id) })
 
-/-- `lru.Cache.ContainsOrAdd` -/
-def Seen.containsOrAdd (s : Seen) (id : Bytes) (v : Val) : Bool × Seen :=
-  match s.lookup id with
-  | some _ => (true, s)
-  | none => (false, s.add id v)
-
 inductive Arr
   /-- BlockProducedNotice: identifier field non-empty; 32 bytes long; `checkSender` (the peer is the
   producer named by the header's public key, or its certified agent); `block.Size() ≤ MaxBlockSize`;
@@ -80,9 +75,12 @@ def step (s : Seen) (a : Arr) : Seen × Act :=
       | (none, _) => (s.add id (.digest c), .forward id)
   | .nb id lenOK peerSeen chainHas =>
     if !(lenOK && !peerSeen) then (s, .nothing) else
-    match s.containsOrAdd id .placeholder with
-    | (true, s') => (s', .nothing)
-    | (false, s') => if chainHas then (s', .nothing) else (s', .request id)
+    -- `Peek`: no refresh. A placeholder: already asked for. A content digest only says that *some* block carrying the
+    -- identifier went to the chain service (repair 3a7d8024): go on; nothing: remember a placeholder.
+    match s.lookup id with
+    | some .placeholder => (s, .nothing)
+    | some (.digest _) => if chainHas then (s, .nothing) else (s, .request id)
+    | none => if chainHas then (s.add id .placeholder, .nothing) else (s.add id .placeholder, .request id)
   | .gbr statusOK blocks =>
     if !statusOK then (s, .nothing) else
     match blocks with
